@@ -178,7 +178,7 @@ def build_cli(name='cli', san='plain', repo=None):
     gen_config_h(os.path.join(d, 'inc'), ts=True)
     cc, sflags = SAN[san]
     cflags = COMMON_WARN + sflags + ['-I' + os.path.join(d, 'inc'), '-I' + os.path.join(repo, 'src'), '-I' + repo]
-    srcs = sorted(glob.glob(os.path.join(repo, 'src/cli/*.c'))) + sorted(glob.glob(os.path.join(repo, 'src/util/*.c')))
+    srcs = sorted(glob.glob(os.path.join(repo, 'src/cli/*.c'))) + [x for x in sorted(glob.glob(os.path.join(repo, 'src/util/*.c'))) if not x.endswith('/list.c')]
     jobs, objs = [], []
     for s in srcs:
         o = os.path.join(od, objname(s, repo))
